@@ -402,3 +402,300 @@ def hb_projection(trace, job, ordtab=None):
             elif kk == "unpark" and e.get("u", -1) >= 0:
                 ev.append({"e": "unpark", "t": t, "a": e["u"], "acq": 0, "rel": 0})
     return {"id": trace["id"], "threads": threads, "ev": ev}
+
+
+def rbstep_projection(trace, job):
+    """Sequential runs with a snapshot after every operation -> Trace_RBStep input: for every operation on
+    a key whose bin is (or becomes, or stops being) a tree bin, the bin's structure before and after, with
+    nodes renamed to the rank of their key in (hash, key) order, so that the transcribed algorithms
+    (TreeBinOps.tla) can be run from the `pre` structure and compared with `post` node for node.
+      {e:"ins"|"rem"|"same", k, pre:TREE, post:TREE|{list:[..]}}   operations on a tree bin
+      {e:"build", lst:[..], post:TREE}                              treeify_bin of a list bin (+ new key at the tail)
+      {e:"split", pre:TREE, lo:[..], hi:[..], plo:BIN, phi:BIN}      a resize splits the tree bin
+    TREE = {root, first, nodes:[{n,parent,left,right,red,prev,next}]}, BIN = TREE | {list:[..]} | {empty:1}"""
+    if job.get("threads"):
+        return {"id": trace["id"], "ev": []}
+    keys = sorted(set(job.get("finals", [])) | {o.get("k") for o in job.get("prefix", []) if isinstance(o.get("k"), int)})
+    order = sorted(keys, key=lambda k: (_hash_of(job, k), k))
+    rank = {k: i + 1 for i, k in enumerate(order)}
+    if len(rank) > 128:
+        return {"id": trace["id"], "ev": []}
+
+    def tree(b):
+        byn = {n["n"]: rank.get(n["k"], 0) for n in b["nodes"]}
+        byn[0] = 0
+        if any(n["hok"] != 1 for n in b["nodes"]) or any(v == 0 for kk, v in byn.items() if kk != 0):
+            return None
+        g = lambda x: byn.get(x, 0)
+        return {"root": g(b["root"]), "first": g(b["first"]),
+                "nodes": [{"n": g(n["n"]), "parent": g(n["parent"]), "left": g(n["left"]), "right": g(n["right"]),
+                           "red": n["red"], "prev": g(n["prev"]), "next": g(n["next"])} for n in b["nodes"]]}
+
+    def binrep(b):
+        if b["kind"] == "tree":
+            return tree(b)
+        if b["kind"] == "list":
+            if any(n["k"] not in rank for n in b["nodes"]):
+                return None
+            return {"list": [rank[n["k"]] for n in b["nodes"]]}
+        if b["kind"] == "empty":
+            return {"empty": 1}
+        return None
+
+    ev = []
+    prev = None
+    op = None
+    for e in trace["ev"]:
+        kind = e.get("e")
+        if kind == "call":
+            op = e
+        elif kind == "obs":
+            sn = e["o"].get("snap")
+            if prev is not None and op is not None and sn and len(prev.get("tables", [])) == 1 and len(sn.get("tables", [])) == 1:
+                t0, t1 = prev["tables"][0], sn["tables"][0]
+                k = op.get("k")
+                if t0["len"] == t1["len"] and isinstance(k, int) and k in rank and op.get("op") not in ("probe_cmp",):
+                    i = _hash_of(job, k) & (t0["len"] - 1)
+                    b0, b1 = t0["bins"][i], t1["bins"][i]
+                    in0 = any(n["k"] == k for n in b0.get("nodes", []))
+                    in1 = any(n["k"] == k for n in b1.get("nodes", []))
+                    if b0["kind"] == "tree":
+                        pre, post = tree(b0), binrep(b1)
+                        if pre is not None and post is not None:
+                            what = "ins" if (not in0 and in1) else "rem" if (in0 and not in1) else "same"
+                            ev.append({"e": what, "k": rank[k], "pre": pre, "post": post})
+                    elif b0["kind"] == "list" and b1["kind"] == "tree" and not in0 and in1:
+                        post = tree(b1)
+                        if post is not None and all(n["k"] in rank for n in b0["nodes"]):
+                            ev.append({"e": "build", "lst": [rank[n["k"]] for n in b0["nodes"]] + [rank[k]], "post": post})
+                elif t1["len"] == 2 * t0["len"]:
+                    # the operation made the table double: every tree bin of the old table was split
+                    n0 = t0["len"]
+                    kk = op.get("k")
+                    for i, b0 in enumerate(t0["bins"]):
+                        if b0["kind"] != "tree":
+                            continue
+                        if isinstance(kk, int) and (_hash_of(job, kk) & (n0 - 1)) == i:
+                            continue    # the bin the operation itself changed first
+                        pre = tree(b0)
+                        plo, phi = binrep(t1["bins"][i]), binrep(t1["bins"][i + n0])
+                        if pre is None or plo is None or phi is None:
+                            continue
+                        inv = {rank[n["k"]]: n["k"] for n in b0["nodes"]}
+                        lst = [rank[n["k"]] for n in b0["nodes"]]
+                        lo = [r for r in lst if (_hash_of(job, inv[r]) & n0) == 0]
+                        hi = [r for r in lst if (_hash_of(job, inv[r]) & n0) != 0]
+                        ev.append({"e": "split", "pre": pre, "lo": lo, "hi": hi, "plo": plo, "phi": phi})
+            if sn:
+                prev = sn
+            op = None
+    return {"id": trace["id"], "ev": ev}
+
+
+# ------------------------------------------------------------------------------------------
+# step-level conformance with Flurry.tla (Trace_Flurry)
+
+FL_OPS = {"insert", "get", "get_key_value", "contains_key", "remove", "remove_entry", "try_insert", "compute", "clear", "iter"}
+
+
+def flurry_projection(trace, job, consts):
+    """The recorded stream of shared-memory accesses -> Trace_Flurry input (see the module's header).
+    Returns None when the run leaves the alphabet of Flurry.tla (sets, tree bins, other operations)."""
+    if job.get("kind") != "map":
+        return None
+    nth = len(job.get("threads", []))
+    main = nth
+    stamps = consts["stamps"]
+    shift = consts["resize_stamp_shift"]
+
+    def msc(x):
+        """real size_ctl value -> the model's encoding"""
+        if x >= -1:
+            return x
+        u = x + (1 << 64)
+        st, k = u >> shift, u & ((1 << shift) - 1)
+        if st in stamps:
+            return -(1000 * (1 << stamps.index(st))) + k
+        return -999999
+
+    evs = trace["ev"]
+    start = next((i for i, e in enumerate(evs) if e.get("e") == "layout"), None)
+    if start is None:
+        return None
+    lay = evs[start]
+    a_table, a_next = lay["table"], lay["next_table"]
+    tables = set()          # addresses of Table structs seen
+    blocks = []             # (start, size) of the objects flurry allocated through Shared::boxed
+    for e in evs[:start]:
+        if e.get("e") == "alloc":
+            blocks.append((e["o"], e.get("sz", 0)))
+        elif e.get("e") == "site" and e["s"] in (1, 5, 6):
+            tables.add(e["a"])
+
+    def block_of(a):
+        for o, sz in blocks:
+            if o <= a < o + sz:
+                return (o, sz)
+        return None
+
+    def is_table_block(b):
+        return any(b[0] <= tb < b[0] + b[1] for tb in tables)
+
+    prog = {t: [] for t in range(nth + 1)}
+    out = []
+
+    def emit(t, ev):
+        last_step[t] = len(out)
+        out.append(ev)
+
+    cur_op = {}             # t -> current call (None = outside the alphabet: its events are dropped)
+    incrit = {}             # t -> inside a bin critical section
+    last_step = {}          # t -> index in `out` of the thread's last recorded access
+    for e in evs[start + 1:]:
+        k = e.get("e")
+        if k == "quiescent":
+            break
+        t = e.get("t")
+        if k == "alloc":
+            blocks.append((e["o"], e.get("sz", 0)))
+            continue
+        if k == "site":
+            if e["s"] in (1, 5, 6):      # start / pub / init carry table addresses
+                tables.add(e["a"])
+                if e["s"] == 5:
+                    tables.add(e["b"])
+            continue
+        if k == "call":
+            if e["op"] not in FL_OPS:
+                if t == main and e["op"] in ("len", "is_empty", "obs", "keys", "values", "debug", "clone_eq", "eq_other", "probe_cmp"):
+                    cur_op[t] = None
+                    continue
+                return None
+            f = e.get("f", "") or "-"
+            if e["op"] == "compute" and f not in ("inc", "none", "const"):
+                return None
+            o = {"op": e["op"], "k": e.get("k", 0) or 1, "tag": e.get("tag", 0), "v": e.get("v", 0), "pl": e.get("pl", 0), "f": f}
+            if e["op"] in ("clear", "iter"):
+                o["k"] = 1
+            prog[t].append(o)
+            cur_op[t] = o
+            out.append({"t": t + 1, "c": "call", "op": o["op"], "k": o["k"]})
+            continue
+        if k == "ret":
+            if cur_op.get(t) is None:
+                continue
+            if e.get("panic"):
+                return None
+            seen = e.get("seen", [])
+            out.append({"t": t + 1, "c": "ret", "ok": e.get("ok", 0), "v": e.get("v", 0), "tag": e.get("tag", 0), "ni": e.get("ni", 0),
+                        "seen": seen[0] if seen else 0, "pl": e.get("pl", 0)})
+            cur_op[t] = None
+            continue
+        if k == "thread_panic":
+            return None
+        if k == "unlock":
+            # the release is noticed at the thread's next hook; it happened right after the thread's last
+            # recorded access (no other thread ran in between): put it there
+            if incrit.get(t):
+                incrit[t] = False
+                j = last_step.get(t)
+                if j is not None:
+                    out.insert(j + 1, {"t": t + 1, "c": "unlock"})
+                    for u in last_step:
+                        if last_step[u] > j:
+                            last_step[u] += 1
+                    last_step[t] = j + 1
+            continue
+        if k != "step" or cur_op.get(t) is None:
+            continue
+        op = cur_op[t]["op"]
+        sk = e.get("k")
+        if sk == "lock":
+            incrit[t] = True
+            emit(t, {"t": t + 1, "c": "lock"})
+            continue
+        if sk == "spin":
+            emit(t, {"t": t + 1, "c": "spin"})
+            continue
+        if sk == "word":
+            w, acc = e["w"], e["acc"]
+            if w == "ls":
+                return None          # tree-bin lock word: outside the alphabet
+            base = {"t": t + 1, "ln": e.get("ln", 0)}
+            if w == "sc":
+                c = {"load": "ld_sc", "cas": "cas_sc", "store": "st_sc"}.get(acc)
+                base.update(c=c, cur=msc(e["cur"]), x=msc(e["x"]), y=msc(e["y"]), ok=1 if e.get("ok") else 0)
+            elif w == "ti":
+                c = {"load": "ld_ti", "cas": "cas_ti", "store": "st_ti"}.get(acc)
+                base.update(c=c, cur=e["cur"], x=e["x"], y=e["y"], ok=1 if e.get("ok") else 0)
+            elif w == "cnt":
+                c = {"load": "ld_cnt", "add": "add_cnt"}.get(acc)
+                base.update(c=c, cur=e["cur"], x=e["x"])
+            else:
+                return None
+            if c is None:
+                return None
+            emit(t, base)
+            continue
+        ty, a = e.get("ty"), e.get("a", 0)
+        crit = incrit.get(t, False)
+        if sk == "clone":
+            continue
+        blk = block_of(a)
+        if ty == "table":
+            if a == a_table:
+                c = {"load": "ld_table", "store": "st_table", "swap": "swap_table"}.get(sk)
+            elif a == a_next:
+                c = {"load": "ld_nt", "store": "st_nt", "swap": "swap_nt"}.get(sk)
+            else:
+                # a Table's own next_table field: set by get_moved (folded into the forwarding store), read by
+                # help_transfer / Table::find / the traverser
+                if sk != "load" or crit:
+                    if crit:
+                        last_step[t] = len(out) - 1
+                    continue
+                c = "ld_tnt"
+            if c is None:
+                return None
+            if "new" in e and e["new"]:
+                tables.add(e["new"])
+            emit(t, {"t": t + 1, "c": c, "nil": 1 if e.get("cur", 0) == 0 else 0})
+            continue
+        if ty == "bin":
+            if blk is not None and is_table_block(blk):
+                if crit:
+                    last_step[t] = len(out) - 1
+                continue             # the table's `moved` entry (get_moved)
+            node_field = blk is not None           # a node's next pointer; otherwise a slot of a bin array
+            if sk == "load":
+                if crit:
+                    last_step[t] = len(out) - 1
+                    continue         # reads under the bin lock are part of the critical section's action
+                if op == "clear" and node_field:
+                    continue         # clear walks the list it has just unlinked (retiring the nodes)
+                emit(t, {"t": t + 1, "c": "ld_n" if node_field else "ld_b", "nil": 1 if e.get("cur", 0) == 0 else 0})
+            elif sk == "cas":
+                emit(t, {"t": t + 1, "c": "cas_b", "ok": 1 if e.get("ok") else 0})
+            elif sk in ("store", "swap"):
+                emit(t, {"t": t + 1, "c": "st_n" if node_field else "st_b", "nil": 1 if e.get("new", 0) == 0 else 0})
+            continue
+        if ty == "value":
+            if sk == "load":
+                if crit or op == "clear":
+                    if crit:
+                        last_step[t] = len(out) - 1
+                    continue
+                emit(t, {"t": t + 1, "c": "ld_val"})
+            elif sk in ("swap", "store"):
+                emit(t, {"t": t + 1, "c": "swap_val"})
+            continue
+        # other typed accesses (tree nodes, waiters ...): outside the alphabet
+        return None
+    table = job["hasher"].get("table") if job["hasher"].get("kind") == "table" else None
+    if table is None:
+        return None
+    keys = sorted({o["k"] for t in prog for o in prog[t]})
+    maxk = max(keys) if keys else 1
+    hashof = [(table[k] if k < len(table) else k) for k in range(1, maxk + 1)]
+    return {"id": trace["id"], "nthreads": nth + 1, "prog": [prog[t] for t in range(nth + 1)], "hashof": hashof, "initkeys": [],
+            "n0": lay["n0"], "ev": out}
